@@ -16,21 +16,43 @@ class ReplayUnavailable(Exception):
     pass
 
 
+def _crate_for(repo):
+    """the replay crate names /repo by path; for another checkout of the repository a copy with rewritten paths is used"""
+    real = os.path.realpath(repo)
+    if real == '/repo':
+        return CRATE, TARGET
+    import hashlib
+    tag = hashlib.sha1(real.encode()).hexdigest()[:10]
+    d = os.path.join(VERIF, '.cache', 'replay-crate-' + tag)
+    os.makedirs(os.path.join(d, 'src'), exist_ok=True)
+    os.makedirs(os.path.join(d, '.cargo'), exist_ok=True)
+    toml = open(os.path.join(CRATE, 'Cargo.toml')).read().replace('/repo/crates/', real + '/crates/')
+    for rel, txt in (('Cargo.toml', toml), ('src/main.rs', open(os.path.join(CRATE, 'src', 'main.rs')).read()),
+                     ('.cargo/config.toml', open(os.path.join(CRATE, '.cargo', 'config.toml')).read())):
+        path = os.path.join(d, rel)
+        if not os.path.exists(path) or open(path).read() != txt:
+            open(path, 'w').write(txt)
+    return d, os.path.join(VERIF, '.cache', 'replay-target-' + tag)
+
+
 def build(repo='/repo'):
-    """(re)builds the replay binary against /repo's current working tree; cargo decides what is stale"""
+    """(re)builds the replay binary against the given checkout's current working tree; cargo decides what is stale"""
     if _built.get(repo):
-        return BIN
-    if os.path.realpath(repo) != '/repo':
-        raise ReplayUnavailable('the replay crate depends on /repo by path; repo=%s cannot be replayed' % repo)
+        return _built[repo]
+    if not os.path.isdir(os.path.join(repo, 'crates', 'anemo')):
+        raise ReplayUnavailable('no crates/anemo under %s' % repo)
+    crate, target = _crate_for(repo)
     lock = os.path.join(repo, 'Cargo.lock')
+    if not os.path.exists(lock):
+        lock = '/repo/Cargo.lock'
     if os.path.exists(lock):
-        shutil.copy(lock, os.path.join(CRATE, 'Cargo.lock'))
-    env = dict(os.environ, CARGO_NET_OFFLINE='true', CARGO_TARGET_DIR=TARGET)
-    p = subprocess.run(['cargo', 'build', '--offline', '--quiet'], cwd=CRATE, env=env, capture_output=True, text=True, timeout=1800)
+        shutil.copy(lock, os.path.join(crate, 'Cargo.lock'))
+    env = dict(os.environ, CARGO_NET_OFFLINE='true', CARGO_TARGET_DIR=target)
+    p = subprocess.run(['cargo', 'build', '--offline', '--quiet'], cwd=crate, env=env, capture_output=True, text=True, timeout=1800)
     if p.returncode != 0:
         raise ReplayUnavailable('replay crate does not build against the current tree: ' + p.stderr[-1500:])
-    _built[repo] = True
-    return BIN
+    _built[repo] = os.path.join(target, 'debug', 'verif-replay')
+    return _built[repo]
 
 
 def run(scenario, args, repo='/repo', timeout=300):
